@@ -53,6 +53,7 @@ type plJob struct {
 	Data      []plDgram `json:"data"`      // then these, interleaved by the scheduler
 	Lazy      int       `json:"lazy"`      // the consumer takes a message with probability 1/Lazy per move
 	Retire    int       `json:"retire"`    // dynamic workers: how many workers are told to quit during the data phase
+	Filter    []uint32  `json:"filter"`    // sflow-type-filter
 	Free      bool      `json:"free"`      // no gates: the workers run in parallel as in the collector (used under the race detector)
 	Mirror    string    `json:"mirror"`    // "": mirroring off; "on": enabled, the copies are taken and given back like the mirror workers do; "full": enabled and the mirror queue is full
 }
@@ -280,7 +281,7 @@ func plAdapter(proto string, size int) plProto {
 			start:   func(q chan struct{}) { go s.sFlowWorker(q) },
 			decoded: func() uint64 { return atomic.LoadUint64(&s.stats.DecodedCount) },
 			class: func(tpls []plDgram, d plDgram) string {
-				dec := sflow.NewSFDecoder(bytes.NewReader(plBytes(d.Buf)), opts.SFlowTypeFilter)
+				dec := sflow.NewSFDecoder(bytes.NewReader(plBytes(d.Buf)), append([]uint32{}, opts.SFlowTypeFilter...))
 				dg, err := dec.SFDecode()
 				if err != nil {
 					return "no"
@@ -291,7 +292,7 @@ func plAdapter(proto string, size int) plProto {
 				return "ok"
 			},
 			alone: func(tpls []plDgram, d plDgram) []byte {
-				dec := sflow.NewSFDecoder(bytes.NewReader(plBytes(d.Buf)), opts.SFlowTypeFilter)
+				dec := sflow.NewSFDecoder(bytes.NewReader(plBytes(d.Buf)), append([]uint32{}, opts.SFlowTypeFilter...))
 				dg, err := dec.SFDecode()
 				if err != nil || (len(dg.Counters) < 1 && len(dg.Samples) < 1) {
 					return nil
@@ -319,7 +320,7 @@ func plRun(job plJob) (res plResult) {
 	res.ID = job.ID
 	runtime.GOMAXPROCS(1)
 	logger = log.New(ioutil.Discard, "", 0)
-	opts = &Options{Logger: logger}
+	opts = &Options{Logger: logger, SFlowTypeFilter: job.Filter}
 	mCache = ipfix.GetCache("")
 	mCacheNF9 = netflow9.GetCache("")
 	ad := plAdapter(job.Proto, job.UDPSize)
@@ -666,7 +667,7 @@ func plRunFree(job plJob) (res plResult) {
 	res.ID = job.ID
 	runtime.GOMAXPROCS(8)
 	logger = log.New(ioutil.Discard, "", 0)
-	opts = &Options{Logger: logger}
+	opts = &Options{Logger: logger, SFlowTypeFilter: job.Filter}
 	mCache = ipfix.GetCache("")
 	mCacheNF9 = netflow9.GetCache("")
 	ad := plAdapter(job.Proto, job.UDPSize)
